@@ -56,6 +56,16 @@ pub fn judge(x: &Vec<u8>, st: &mut Stats) -> Verdict {
     )?;
     // c. the TLV iterator as a payload
     check("tlvs-iterator", guard(|| Builder::new(x[12], x[13]).write_payload(h.address_bytes())?.write_payload(h.tlvs())?.build()))?;
+    // c2. a proxy that validates before it forwards: the iterator has been walked (fully, or by one item) before it
+    //     is handed to the builder; it still denotes the header's TLV section (the reading C10 and C20 use as well)
+    check(
+        "tlvs-iterator-after-validation",
+        guard(|| {
+            let mut it = h.tlvs();
+            let _all_ok = it.by_ref().all(|t| t.is_ok());
+            Builder::new(x[12], x[13]).write_payload(h.address_bytes())?.write_payload(it)?.build()
+        }),
+    )?;
     // d. decoded items, when the section is well-formed
     if wf && fam != 0 {
         let items: Vec<TypeLengthValue> = match guard(|| h.tlvs().filter_map(|t| t.ok()).collect::<Vec<_>>()) {
@@ -101,6 +111,7 @@ pub fn run(r: &mut Runner) -> &'static str {
               distinct by SipHash of the input"
         .into();
     r.assumptions.push("conditioned on the parser accepting the candidate (C02 owns acceptance)".into());
+    r.assumptions.push("a TypeLengthValues iterator taken from the header denotes the header's whole TLV section also after it has been walked (validate-then-forward); same reading as C10 / C20".into());
     let n = r.n(120_000, 3_000_000);
     r.random("c13.random", n, 200, &crate::props::c14::gen_case, &judge);
     let (seed, quick) = (r.seed, r.quick());
